@@ -120,6 +120,8 @@ pub fn gen(prop: &str, seed: u64, index: u64, tier: Tier) -> Case {
     if prop == "C03" {
         // now and then more results than any queue holds
         o.wide = true;
+        // and a directory that disappears while the run is under way
+        o.scratch_dir = true;
     }
     // a symlinked directory: the same file under two spellings that only the OS can equate
     o.symlinks = true;
